@@ -11,7 +11,7 @@ import threading
 ROOT = os.path.dirname(os.path.dirname(os.path.abspath(__file__)))
 REPO = os.environ.get("VERIF_REPO", "/repo")
 BUILD = os.path.join(ROOT, "build")
-GOTO_FLAGS = ["-include", f"{REPO}/config.h", f"-I{REPO}", f"-I{REPO}/mtbl", f"-I{ROOT}", "-DVG_CBMC"]
+GOTO_FLAGS = ["-include", f"{REPO}/config.h", f"-I{ROOT}/env/include", f"-I{REPO}", f"-I{REPO}/mtbl", f"-I{ROOT}", "-DVG_CBMC"]
 MEM_LIMIT = 14 * 1024 ** 3
 NCPU = os.cpu_count() or 4
 _sem = threading.Semaphore(NCPU)
@@ -90,9 +90,9 @@ def classify(desc, prop_name, srcfile, g):
         return "L", g.props, desc[2:].strip()
     if desc.startswith("A:"):
         return "A", g.props, desc[2:].strip()
-    if desc.startswith("Check ensures clause") or ".postcondition" in prop_name:
+    if desc.startswith("Check ensures clause"):
         return "P", g.props, desc
-    if desc.startswith("Check requires clause") or ".precondition" in prop_name:
+    if desc.startswith("Check requires clause"):
         # call-site capture obligation of a replaced callee
         return "P", g.props, desc
     if desc.startswith("assertion ") and srcfile.startswith(REPO):
@@ -105,6 +105,22 @@ def classify(desc, prop_name, srcfile, g):
             or "dereference failure" in desc or "bounds" in desc:
         return g.safety, g.props, desc
     return "A", g.props, desc
+
+
+_srccache = {}
+
+
+def clause_text(desc, f, line):
+    """Name a DFCC ensures/requires obligation by the clause's own source text (the spec header line)."""
+    try:
+        if f not in _srccache:
+            _srccache[f] = open(f).read().splitlines()
+        src = _srccache[f][int(line) - 1].strip()
+        kind = "ensures" if "ensures" in desc.split("clause")[0] else "requires(capture)"
+        m = re.search(r"contract::(\w+)", desc)
+        return f"{kind} {m.group(1) if m else ''}: {src}"
+    except Exception:
+        return desc
 
 
 def symtab_functions(gb, log):
@@ -337,6 +353,8 @@ def run_group(g, wd):
             name = r.get("property") or r.get("name")
             sl = r.get("sourceLocation", {})
             cls, props, text = classify(r.get("description", ""), name, sl.get("file", ""), g)
+            if text.startswith("Check ensures clause") or text.startswith("Check requires clause"):
+                text = clause_text(text, sl.get("file", ""), sl.get("line", ""))
             st = r.get("status")
             o = {"group": g.name, "name": name, "class": cls, "props": props, "text": text,
                  "status": st, "file": sl.get("file", ""), "line": sl.get("line", ""),
@@ -344,8 +362,8 @@ def run_group(g, wd):
             if st == "FAILURE":
                 o["inputs"] = trace_inputs(r.get("trace"))
             if name in seen:
-                # sliced runs: keep a FAILURE if any
-                if st == "FAILURE":
+                # sliced runs: keep a FAILURE if any; a definite verdict overrides UNKNOWN
+                if st == "FAILURE" or (st == "SUCCESS" and seen[name]["status"] not in ("FAILURE", "SUCCESS")):
                     seen[name].update(o)
                 continue
             seen[name] = o
